@@ -28,7 +28,7 @@ import (
 //      and show the state after j edits for some j between the number of edits
 //      already acknowledged and the number issued.
 
-func init() { props["C15"] = sim.PropSpec{Gen: genC15, Exec: execC15} }
+func init() { props["C15"] = sim.PropSpec{Gen: genC15, Exec: execC15, NoShrink: noShrink} }
 
 func genC15(r *sim.Rand, tier string) *sim.Case {
 	c := &sim.Case{Cfg: map[string]int64{
@@ -343,7 +343,7 @@ func (w *c15World) crashPoint(ev sim.FSEvent, torn int64) {
 	m, stage, err := openImage(img)
 	res.Checks++
 	if err != nil {
-		res.Trace.Add("img %s torn=%d %s err=%v", ev.Op+"/"+ev.Class, torn, stage, err)
+		res.Trace.Add("img %s torn=%d %s err=%s", ev.Op+"/"+ev.Class, torn, stage, errS(err))
 		res.Violate(w.step, "crash_"+stage+"_error", sig, "crash before %s (torn=%d) during %s with %d edits acknowledged, %d issued: %s: %v", ev.String(), torn, w.callKind, w.acked, w.issued, stage, err)
 		return
 	}
@@ -476,7 +476,7 @@ func execC15(t *testing.T, c *sim.Case) *sim.Result {
 		if perr := guard(func() { err = w.m.LogEdits(edits...) }); perr != nil {
 			err = perr
 		}
-		res.Trace.Add("LogEdits n=%d type0=%d err=%v", len(edits), edits[0].Type, err)
+		res.Trace.Add("LogEdits n=%d type0=%d err=%s", len(edits), edits[0].Type, errS(err))
 		if err != nil {
 			res.Violate(w.step, "edit_error", nil, "LogEdits(%d edits): %v", len(edits), err)
 		}
@@ -492,7 +492,7 @@ func execC15(t *testing.T, c *sim.Case) *sim.Result {
 			runBatch()
 			w.callKind = "rewrite"
 			err := w.m.Rewrite()
-			res.Trace.Add("Rewrite err=%v", err)
+			res.Trace.Add("Rewrite err=%s", errS(err))
 			if err != nil {
 				res.Violate(i, "rewrite_error", nil, "Rewrite: %v", err)
 			}
@@ -537,7 +537,7 @@ func execC15(t *testing.T, c *sim.Case) *sim.Result {
 			w.issued = w.acked + 1
 			w.callKind = "raft_truncate"
 			err := w.m.LogRaftTruncate(group, idx, term, seg, off)
-			res.Trace.Add("LogRaftTruncate g=%d idx=%d err=%v", group, idx, err)
+			res.Trace.Add("LogRaftTruncate g=%d idx=%d err=%s", group, idx, errS(err))
 			if err != nil {
 				res.Violate(i, "edit_error", nil, "LogRaftTruncate: %v", err)
 			}
